@@ -1167,7 +1167,15 @@ func verifyGitObjectAndAttestations(ctx context.Context, policy *State, target s
 	if !options.tagObjectID.IsZero() {
 		// Verify tag object's signature as well
 		tagObjVerified := false
+		hasSpecificVerifiers := false
 		for _, verifier := range verifiers {
+			if verifier.verifyExhaustively {
+				// The exhaustive verifier never fails, it cannot vouch for
+				// the tag object
+				continue
+			}
+			hasSpecificVerifiers = true
+
 			// explicitly not looking at the attestation
 			// that applies to the _push_
 			// thus, we also set threshold to 1
@@ -1187,7 +1195,7 @@ func verifyGitObjectAndAttestations(ctx context.Context, policy *State, target s
 			// Haven't found a valid verifier, continue with next verifier
 		}
 
-		if !tagObjVerified {
+		if !tagObjVerified && hasSpecificVerifiers {
 			return "", false, fmt.Errorf("verifying tag object's signature failed")
 		}
 	}
@@ -1306,11 +1314,30 @@ func verifyGitObjectAndAttestationsUsingVerifiers(ctx context.Context, verifiers
 		verifiedUsing                       string
 		acceptedPrincipalIDs                *set.Set[string]
 		rslEntrySignatureNeededForThreshold bool
+
+		// authenticatedPrincipalIDs is populated by the exhaustive verifier,
+		// which is present when global rules are declared. It identifies every
+		// principal in the policy that has signed off on the change, and is
+		// only used to evaluate global rules: the exhaustive verifier never
+		// fails, so it must not stand in for the rules protecting the
+		// namespace.
+		authenticatedPrincipalIDs *set.Set[string]
+		hasSpecificVerifiers      bool
 	)
 	for _, verifier := range verifiers {
 		trustedPrincipalIDs := verifier.TrustedPrincipalIDs()
 
 		usedPrincipalIDs, err := verifier.Verify(ctx, gitID, authorizationAttestation)
+		if verifier.verifyExhaustively {
+			if err != nil {
+				return "", nil, false, err
+			}
+			addApproversToUsedPrincipals(verifier, usedPrincipalIDs, appNames, approverIDs)
+			authenticatedPrincipalIDs = trustedPrincipalIDs.Intersection(usedPrincipalIDs)
+			continue
+		}
+		hasSpecificVerifiers = true
+
 		if err == nil {
 			// We meet requirements just from the authorization attestation's sigs
 			verifiedUsing = verifier.Name()
@@ -1320,47 +1347,7 @@ func verifyGitObjectAndAttestationsUsingVerifiers(ctx context.Context, verifiers
 			return "", nil, false, err
 		}
 
-		if approverIDs != nil {
-			slog.Debug("Using approvers from code review tool attestations...")
-			// Unify the principalIDs we've already used with that listed in
-			// approval attestation
-			// We ensure that someone who has signed an attestation and is listed in
-			// the approval attestation is only counted once
-			for _, approverID := range approverIDs.Contents() {
-				// For each approver ID from the app attestation, we try to see
-				// if it matches a principal in the current verifiers.
-				for _, principal := range verifier.principals {
-					slog.Debug(fmt.Sprintf("Checking if approver identity '%s' matches '%s'...", approverID, principal.ID()))
-					if usedPrincipalIDs.Has(principal.ID()) {
-						// This principal has already been counted towards the
-						// threshold
-						slog.Debug(fmt.Sprintf("Principal '%s' has already been counted towards threshold, skipping...", principal.ID()))
-						continue
-					}
-
-					// We can only match against a principal if it has a notion
-					// of associated identities
-					// Right now, this is just tufv02.Person
-					matchedAssociatedIdentity := false
-					if principal, isV02 := principal.(*tufv02.Person); isV02 {
-						for _, appName := range appNames {
-							if associatedIdentity, has := principal.AssociatedIdentities[appName]; has && associatedIdentity == approverID {
-								// The approver ID from the issuer (appName) matches
-								// the principal's associated identity for the same
-								// issuer!
-								slog.Debug(fmt.Sprintf("Principal '%s' has associated identity '%s', counting principal towards threshold...", principal.ID(), approverID))
-								usedPrincipalIDs.Add(principal.ID())
-								matchedAssociatedIdentity = true
-								break
-							}
-						}
-					}
-					if matchedAssociatedIdentity {
-						break
-					}
-				}
-			}
-		}
+		addApproversToUsedPrincipals(verifier, usedPrincipalIDs, appNames, approverIDs)
 
 		// Get a list of used principals that are also trusted by the verifier
 		trustedUsedPrincipalIDs := trustedPrincipalIDs.Intersection(usedPrincipalIDs)
@@ -1384,9 +1371,66 @@ func verifyGitObjectAndAttestationsUsingVerifiers(ctx context.Context, verifiers
 		}
 	}
 
+	if !hasSpecificVerifiers && authenticatedPrincipalIDs != nil {
+		// No rule protects the namespace, only global rules apply to it. We
+		// don't name a verifier as no rule was met.
+		return "", authenticatedPrincipalIDs, false, nil
+	}
+
 	if verifiedUsing != "" {
+		if authenticatedPrincipalIDs != nil {
+			// Global rules consider every authenticated principal
+			authenticatedPrincipalIDs.Extend(acceptedPrincipalIDs)
+			acceptedPrincipalIDs = authenticatedPrincipalIDs
+		}
 		return verifiedUsing, acceptedPrincipalIDs, rslEntrySignatureNeededForThreshold, nil
 	}
 
 	return "", nil, false, ErrVerifierConditionsUnmet
+}
+
+// addApproversToUsedPrincipals unifies the principals already counted by the
+// verifier with those listed as approvers by a trusted code review tool. A
+// principal who has signed an attestation and is also listed as an approver is
+// only counted once.
+func addApproversToUsedPrincipals(verifier *SignatureVerifier, usedPrincipalIDs *set.Set[string], appNames []string, approverIDs *set.Set[string]) {
+	if approverIDs == nil {
+		return
+	}
+
+	slog.Debug("Using approvers from code review tool attestations...")
+	for _, approverID := range approverIDs.Contents() {
+		// For each approver ID from the app attestation, we try to see
+		// if it matches a principal in the current verifiers.
+		for _, principal := range verifier.principals {
+			slog.Debug(fmt.Sprintf("Checking if approver identity '%s' matches '%s'...", approverID, principal.ID()))
+			if usedPrincipalIDs.Has(principal.ID()) {
+				// This principal has already been counted towards the
+				// threshold
+				slog.Debug(fmt.Sprintf("Principal '%s' has already been counted towards threshold, skipping...", principal.ID()))
+				continue
+			}
+
+			// We can only match against a principal if it has a notion
+			// of associated identities
+			// Right now, this is just tufv02.Person
+			matchedAssociatedIdentity := false
+			if principal, isV02 := principal.(*tufv02.Person); isV02 {
+				for _, appName := range appNames {
+					if associatedIdentity, has := principal.AssociatedIdentities[appName]; has && associatedIdentity == approverID {
+						// The approver ID from the issuer (appName) matches
+						// the principal's associated identity for the same
+						// issuer!
+						slog.Debug(fmt.Sprintf("Principal '%s' has associated identity '%s', counting principal towards threshold...", principal.ID(), approverID))
+						usedPrincipalIDs.Add(principal.ID())
+						matchedAssociatedIdentity = true
+						break
+					}
+				}
+			}
+			if matchedAssociatedIdentity {
+				break
+			}
+		}
+	}
 }
